@@ -217,6 +217,29 @@ def run(ctx: Ctx):
                             continue
                         items.append((key, A, relations(A, want_views=False), 2.0 ** -30))
                         ctx.count("scalar:" + op, key)
+    # compositions A(B) and A @ B of class pairs on complex spaces: the class-specific __call__ / __matmul__ shortcuts
+    # (MatrixOperator always on the left, the other pairs sampled) build their own adjoint closures
+    dtc = np.complex128
+    tseed = ctx.rng.getrandbits(32)
+    pool = L.leaf_pool(random.Random(tseed), 3, dtc)
+    names = sorted(pool)
+    pairs = [("MatrixOperator", b) for b in names] + [(a, "MatrixOperator") for a in names if a != "MatrixOperator"]
+    rest = [(a, b) for a in names for b in names if "MatrixOperator" not in (a, b)]
+    ctx.rng.shuffle(rest)
+    pairs += rest[: (8 if ctx.quick else len(rest))]
+    for a, b in pairs:
+        for op in ("comp", "matmul"):
+            if ctx.quick and op == "matmul" and a != "MatrixOperator":
+                continue
+            desc = [op, ["leaf", a], ["leaf", b]]
+            key = {"tree": desc, "n": 3, "dtype": np.dtype(dtc).name, "tseed": tseed}
+            try:
+                A = rebuild_tree(desc, pool)
+            except Exception:
+                ctx.count("tree-rejected", key, nontrivial=False)
+                continue
+            items.append((key, A, relations(A, want_views=False), 2.0 ** -30))
+            ctx.count("pair:" + op, key)
     n2, _ = check_entries(ctx, items, lambda k: "expression:" + root_of(k["tree"]), "C01_tree")
     ctx.traces = n1 + n2
     default_mode_stream(ctx, seed, level)
